@@ -7,7 +7,9 @@ fam_muc(rng)   2-4 waiters in nsync_mu_wait_with_deadline on mu0 over the condit
                  c3: x0 >= 1            c4: x1 == 1            (or no condition)
                in reader or writer mode, deadlines inf | p<ns> | m<ns>, optionally a cancel note (with
                or without its own deadline, notified by another fiber or not at all);
-               setters that make the conditions true step by step (x0: 0 -> [2 ->] [0 ->] 1, x1: 0 -> 1),
+               setters that make the conditions true step by step (x0: 0 -> [2 ->] [0 ->] 1, x1: 0 -> 1;
+               a quarter of the scenarios "flap": x0 goes 0 -> 2 -> 0 -> 1 with a `ge` waiter that is woken,
+               finds its condition false again and waits anew at the FRONT of the queue),
                every section that can make a condition true ends with nsync_mu_unlock;
                sections ending with nsync_mu_unlock_without_wakeup that respect its contract (they write
                x2, which no condition reads, or set x0 := 0, which makes no condition true);
@@ -39,8 +41,11 @@ def fam_muc(rng):
     if use_note:
         lines.append("pre note_new n0 - %s" % rng.choice(["inf", "inf", "p3000", "p70000", "m5"]))
     nw = rng.choice([2, 2, 3, 3, 4])
-    for _ in range(nw):
+    flap = rng.random() < 0.25      # x0: 0 -> 2 -> 0 -> 1 with a `ge` waiter: woken, finds its condition false again, re-waits
+    for i in range(nw):
         c = rng.choice(["c0", "c0", "c1", "c1", "c2", "c2", "c3", "c4", "-"])
+        if flap and i == 0: c = "c3"
+        if flap and i == 1: c = "c4"
         dl = rng.choice(["inf", "inf", "inf", "p1000", "p60000", "p400000", "m5"])
         rd = rng.random() < 0.4
         w = "muwait mu0 %s %s" % (c, dl) if c != "-" else "muwait mu0"
@@ -59,9 +64,9 @@ def fam_muc(rng):
         lines.append("fiber " + " ; ".join(ops))
     # setters
     x0steps = []
-    if rng.random() < 0.3:
+    if flap or rng.random() < 0.3:
         x0steps.append(["lock mu0", "wr x0 2", "unlock mu0"])          # c3 becomes true, c0-c2 stay false
-    if rng.random() < 0.3:
+    if flap or rng.random() < 0.3:
         x0steps.append(["lock mu0", "wr x0 0", rng.choice(["unlock mu0", "unlock_nw mu0"])])   # makes nothing true
     x0steps.append(["lock mu0", "wr x0 1", "unlock mu0"])
     x1steps = [["lock mu0", "wr x1 1", "unlock mu0"]]
